@@ -98,6 +98,7 @@ def parseArg (s : String) : Option Arg :=
   | ["depth"] => some .depth | ["d"] => some .depth
   | ["delete"] => some .delete
   | ["sorted"] => some .sorted | ["follow"] => some .follow
+  | ["xdev"] => some .xdev | ["mount"] => some .xdev
   | ["name", h] => (bytesOfHex h).map fun b => .tok (.prim (.name b))
   | ["type", c] => (match c.toList with | [c] => some (.tok (.prim (.typeIs c))) | _ => none)
   | ["lit", h] => (bytesOfHex h).map fun b => .tok (.prim (.lit b))
